@@ -28,7 +28,8 @@ RULE = ("a scenario = (continuum, dissimilarity, sampler, mode, n_samples, preci
         "(explicit ground truth) on the same continuum, one repeats it after a CBC failure injected into an unrelated alignment; one scenario in seven is large and sparse enough "
         "for the fast mode to record a finite window, one has all annotators identical (observed disorder 0), one is crowded "
         "(4-5 annotators with two long units each: the shuffle sampler runs out of free pivot zones), one asks for a precision "
-        "that triggers a second batch after a first batch of 5-30 samples (worker counts 1,2,3,4,5,8,16); plus plain repetition in the same process; results must be bit-identical.  A set of "
+        "that triggers a second batch after a first batch of 5-30 samples (worker counts 1,2,3,4,5,8,16), one has tied optimal alignments that differ in "
+        "gamma-cat / gamma-k; plus plain repetition in the same process; results must be bit-identical.  A set of "
         "common scenarios is also run by every worker process, each under a different PYTHONHASHSEED (0, 1, 2, 3, "
         "random...) and the digests are compared across processes. non-trivial = scenario with >= 2 jobs; distinct = "
         "distinct (scenario, schedule)")
@@ -185,6 +186,29 @@ def gen_second_batch_scenario(rng):
             "precision": rng.choice([0.05, 0.08, 0.1]), "np_seed": rng.randrange(2 ** 31)}
 
 
+def gen_tied_scenario(rng):
+    """Continua whose best alignment is not unique: a unit lies exactly half-way between two units of another annotator that
+    carry different labels, so two alignments have exactly the same disorder but other gamma-cat / gamma-k values.  Which
+    of them is returned must not depend on the schedule, on repetition, nor on what happened earlier in the process."""
+    n = rng.choice([2, 3])
+    names = cases.ANNOTATOR_NAMES[:n]
+    ann = {a: [] for a in names}
+    t = 0.0
+    for _ in range(rng.randint(2, 4)):
+        a, b = rng.sample(names, 2)
+        ann[a].append([t + 1.0, t + 3.0, "x"])
+        ann[b].append([t, t + 2.0, "y"])
+        ann[b].append([t + 2.0, t + 4.0, "z"])
+        for c in names:
+            if c not in (a, b):
+                ann[c].append([t + 1.0, t + 3.0, rng.choice(["x", "y", "z"])])
+        t += float(rng.choice([10, 12, 16]))
+    return {"continuum": {"ann": {a: sorted(us) for a, us in ann.items()}, "family": "tied-optima"},
+            "dissim": {"kind": "combined", "alpha": 1.0, "beta": 1.0, "delta": 1.0, "pos": None, "cat": None},
+            "ground_truth": None, "ground_truth_as": "list", "sampler": rng.choice(["shuffle_int", "shuffle_float", "statistical"]),
+            "mode": rng.choice(["exact", "exact", "soft"]), "n_samples": rng.choice([3, 5]), "precision": None, "np_seed": rng.randrange(2 ** 31)}
+
+
 def gen_scenario(rng, dspecs):
     dspec = rng.choice(dspecs)
     labels = cases.dissim_labels(dspec) or cases.LABELS_SMALL
@@ -293,6 +317,15 @@ _last_objects = {}
 
 def run(ctx):
     setup(ctx)
+    # ---- first thing in this process: scenarios with tied optimal alignments (anything that switches the process to another
+    # behaviour for good - after a fault, after a first call - can only be seen by what ran before the switch)
+    first_rng = random.Random(f"C06-first:{ctx.seed}:{ctx.shard}")
+    for i in range(2):
+        sc = gen_tied_scenario(first_rng)
+        case = {"scenario": sc, "schedules": [["lifo", 3, i]]}
+        ctx.begin_case(case)
+        ctx.observe("scenario_kind", "tied-optima(first in the process)")
+        check_case(ctx, case)
     # ---- scenarios common to all worker processes (different PYTHONHASHSEED each): digests compared by cross_shard
     common_rng = random.Random(f"C06-common:{ctx.seed}")
     dspecs_common = cases.gen_pool_specs(common_rng, 6, kinds=["combined", "combined", "positional", "levenshtein"])
@@ -315,13 +348,14 @@ def run(ctx):
     dspecs.append({"kind": "combined", "alpha": 3.0, "beta": 1.0, "delta": 1.0, "pos": None, "cat": None})
     import resource
     for i in range(ctx.scale(14, 160)):
-        if i >= 4 and ctx.out_of_time():      # the first scenario of each special kind runs whatever the budget
+        if i >= 5 and ctx.out_of_time():      # the first scenario of each special kind runs whatever the budget
             break
         if resource.getrusage(resource.RUSAGE_SELF).ru_maxrss > 3_500_000:     # kB: compiled kernels are never freed
             ctx.observe("stopped_early", "memory: compiled kernels of the fresh dissimilarity objects")
             break
-        kind = ["fast-windowed-size", "identical-annotators", "crowded", "second-batch", "small", "small", "small"][i % 7]
+        kind = ["fast-windowed-size", "identical-annotators", "crowded", "second-batch", "tied-optima", "small", "small", "small"][i % 8]
         sc = {"fast-windowed-size": lambda: gen_windowed_scenario(rng, ctx.tier == "quick"), "identical-annotators": lambda: gen_identical_scenario(rng),
+              "tied-optima": lambda: gen_tied_scenario(rng),
               "crowded": lambda: gen_crowded_scenario(rng), "second-batch": lambda: gen_second_batch_scenario(rng),
               "small": lambda: gen_scenario(rng, dspecs)}[kind]()
         ctx.observe("scenario_kind", kind)
